@@ -89,6 +89,7 @@ func TestC15Slippage(t *testing.T) {
 		wo.FeeCoin = true
 		wo.MaxPools = 4
 		h := newHistory(t, wo, swapProfile(), sim.BlockOpts{MaxTxs: 6, Absences: false, Evidence: false})
+		defer queryLoad(t, h, 0)()
 		n, r, g, w := h.N, h.R, h.G, h.W
 		balance := func(a types.Address, c types.CoinID) *big.Int {
 			return new(big.Int).Set(n.App.VerifStateDeliver().Accounts.GetBalance(a, c))
